@@ -302,6 +302,26 @@ pub fn literal_inputs(max_chr: usize) -> Vec<String> {
             out.push(format!("{}.{}", a, b));
         }
     }
+    // more than 28 digits after the point of which at most 28 are significant: leading zeros, a few digits, and
+    // redundant zeros up to 28, 29, 30, 40 fractional digits
+    for lead in 0..=28usize {
+        for sig in ["1", "5", "15", "123", "1234567", "9999999999"] {
+            for total in [28usize, 29, 30, 31, 40] {
+                if lead + sig.len() > 28 || lead + sig.len() > total {
+                    continue;
+                }
+                let frac = format!("{}{}{}", "0".repeat(lead), sig, "0".repeat(total - lead - sig.len()));
+                out.push(format!("0.{}", frac));
+                out.push(format!(".{}", frac));
+                out.push(format!("00.{}", frac));
+            }
+        }
+    }
+    for total in [1usize, 27, 28, 29, 30, 40, 100] {
+        out.push(format!("0.{}", "0".repeat(total)));
+        out.push(format!(".{}", "0".repeat(total)));
+        out.push(format!("000.{}", "0".repeat(total)));
+    }
     // neighbourhoods of 2^53, 2^63, 2^64, 2^96, 10^28 and round-half cases
     for t in [
         "9007199254740992", "9007199254740993", "9007199254740994", "9007199254740995", "9007199254740993.0000000001",
